@@ -178,7 +178,17 @@ fn all_digraphs(nv: usize) -> Vec<Vec<(usize, usize)>> {
     (0..(1u64 << pairs.len())).map(|m| pairs.iter().enumerate().filter(|(i, _)| (m >> i) & 1 == 1).map(|(_, p)| *p).collect()).collect()
 }
 
-const NAME_SETS: [[&str; 6]; 4] = [["a", "b", "c", "d", "e", "f"], ["x1", "y_2", "z'", "w", "q9", "_u"], ["é", "λ", "中", "ñ", "ß", "ö"], ["n1", "n2", "n3", "n4", "n5", "n6"]];
+const NAME_SETS: [[&str; 6]; 8] = [
+    ["a", "b", "c", "d", "e", "f"],
+    ["x1", "y_2", "z'", "w", "q9", "_u"],
+    ["é", "λ", "中", "ñ", "ß", "ö"],
+    ["n1", "n2", "n3", "n4", "n5", "n6"],
+    // names that collide under naive string concatenation / prefixing
+    ["a", "b", "a_b", "b_a", "a_b_a", "ab"],
+    ["x", "y_z", "x_y", "z", "x_y_z", "_"],
+    ["v", "v_v", "v_", "_v", "vv", "v_v_v"],
+    ["n", "n1", "n10", "n_1", "n_", "n1_0"],
+];
 
 fn job(ctx: &Ctx, job: usize, jobs: usize, thorough: bool) -> Stats {
     let mut st = Stats::new();
@@ -248,7 +258,7 @@ pub fn run(ctx: &Ctx) -> (Stats, Spec) {
         }
     }
     let spec = Spec {
-        rule: "edge lists: every digraph on 3 vertices (4 vertices: every 4th [quick] / all [thorough]) x {-u} x {-a}, random graphs on 5-6 vertices with self-loops, duplicates, one-directional edges and shuffled rows, empty and complete graphs; vertex names plain, with ' _ digits, non-ASCII, and the pair {x, v_x}; input via file or stdin, output via stdout or file. The emitted text is parsed and evaluated by the reference; for EVERY subset of the vertices 'is a model' must equal 'is a (maximum) clique'. distinct = (edge set, flags); non-trivial = at least one edge and one non-adjacent pair.".into(),
+        rule: "edge lists: every digraph on 3 vertices (4 vertices: every 4th [quick] / all [thorough]) x {-u} x {-a}, random graphs on 5-6 vertices with self-loops, duplicates, one-directional edges and shuffled rows, empty and complete graphs; vertex names plain, with ' _ digits, non-ASCII, the pair {x, v_x}, and name families that collide under string concatenation / prefixing ({a, b, a_b, b_a, a_b_a}, {v, v_v, v_, _v}, {n, n1, n10, n_1}); input via file or stdin, output via stdout or file. The emitted text is parsed and evaluated by the reference; for EVERY subset of the vertices 'is a model' must equal 'is a (maximum) clique'. distinct = (edge set, flags); non-trivial = at least one edge and one non-adjacent pair.".into(),
         assumptions: vec![
             "vertex names are identifiers that are not keywords of the formula language (as the statement says)".into(),
             "adjacency: with -u an edge in either direction; without it both directions must be present; self-loops are ignored".into(),
